@@ -498,50 +498,70 @@ def check(ctx, rep):
 
 
 def client_test(ctx, rep):
+    """the client's own A against the announced modulus: decided on the big-integer view of
+    client_try_from_bigint (the Integer wrapper and any helper a refactoring put in between are
+    looked through), by the form of the two decisions - value == 0, value % int(N') == 0 - and
+    what stands behind their edges"""
     fn = PK + "::client_try_from_bigint"
-    se = ctx.flat.run(fn)
+    se = ctx.big.run(fn)
     if se is None:
         rep.violation("client-test", fn, "anchor", "not found")
         return
     body = se.body
-    sws = util.bool_switches(se)
+    VAL = ("field", ("param", 1), 0)
+
+    def is_zero_const(t):
+        t = strip(t)
+        return "from" in str(t) and "('int', 0" in str(t) and "param" not in str(t)
+
+    def is_val(t):
+        t = strip(t)
+        return t == VAL
+
+    def mod_of(t):
+        """the modulus term M when t is VAL % M on num-bigint values, else None"""
+        t = strip(t)
+        if util.is_call(t) and "Rem" in t[1] and len(t[2]) == 2 and is_val(t[2][0]):
+            return strip(t[2][1])
+        return None
+
     zero = mod = None
-    for bb, d, f_t, t_t in sws:
+    for bb, d, f_t, t_t in util.bool_switches(se):
         d = strip(d)
-        if util.is_call(d, "bigint::Integer::is_zero") and strip(d[2][0]) == ("param", 1):
-            zero = (bb, t_t, f_t)
-        if util.is_call(d, "bigint::Integer::mod_large_safe_prime_is_zero") and strip(d[2][0]) == ("param", 1):
-            mod = (bb, t_t, f_t, strip(d[2][1]))
+        neg = False
+        while d[0] == "unop" and d[1] == "Not":
+            neg = not neg
+            d = strip(d[2])
+        if not (util.is_call(d) and (d[1].endswith("::eq") or d[1].endswith("::ne")) and len(d[2]) == 2):
+            continue
+        if d[1].endswith("::ne"):
+            neg = not neg
+        a, b = d[2]
+        if is_zero_const(a):
+            a, b = b, a
+        if not is_zero_const(b):
+            continue
+        tt, ff = (f_t, t_t) if neg else (t_t, f_t)
+        if is_val(a):
+            zero = (bb, tt, ff)
+        elif mod_of(a) is not None:
+            mod = (bb, tt, ff, mod_of(a))
     if zero is None or mod is None:
-        rep.violation("client-test", fn, "tests", "the two arithmetic tests (is_zero, mod_large_safe_prime_is_zero) on the candidate key were not found", body.loc())
+        rep.violation("client-test", fn, "tests", "the two arithmetic tests (value == 0, value % announced prime == 0) on the candidate key were not found", body.loc())
         return
-    rep.check(mod[3] == ("param", 2), "client-test", fn, "announced-modulus", "the modulus tested is the announced prime parameter", "the modulus tested is %s, not the announced prime" % show(mod[3], maxdepth=2), body.loc(mod[0]))
+    rep.ok("client-test", "bigint::Integer", "predicates", "the tests are value == 0 and value % M == 0 on the big-integer value of the candidate", body.loc(zero[0]))
+    m = mod[3]
+    from_n = "from_bytes_le" in str(m) and "('param', 2)" in str(m) and "('param', 1)" not in str(m)
+    rep.check(from_n, "client-test", fn, "announced-modulus", "the modulus tested is the announced prime parameter", "the modulus tested is %s, not the announced prime" % show(m, maxdepth=3), body.loc(mod[0]))
     aggs = util.blocks_constructing(body, PK)
     good = bool(aggs) and all(cfg.must_pass_edge(body, (zero[0], zero[2]), bi) and cfg.must_pass_edge(body, (mod[0], mod[2]), bi) for bi, _, _ in aggs)
     rep.check(good, "client-test", fn, "gate", "PublicKey built only when both tests are false", "the client key can be constructed without passing both tests", body.loc())
     kinds = {}
-    for bi, si, s in util.blocks_constructing(body, ERR):
-        kinds[s["rv"]["vname"]] = bi
+    for bi, si, s_ in util.blocks_constructing(body, ERR):
+        kinds.setdefault(s_["rv"]["vname"], []).append(bi)
     good = "PublicKeyIsZero" in kinds and "PublicKeyModLargeSafePrimeIsZero" in kinds
     if good:
-        good = cfg.must_pass_edge(body, (zero[0], zero[1]), kinds["PublicKeyIsZero"]) and cfg.must_pass_edge(body, (mod[0], mod[1]), kinds["PublicKeyModLargeSafePrimeIsZero"]) and cfg.must_pass_edge(body, (zero[0], zero[2]), mod[0])
+        good = (all(cfg.must_pass_edge(body, (zero[0], zero[1]), b_) for b_ in kinds["PublicKeyIsZero"])
+                and all(cfg.must_pass_edge(body, (mod[0], mod[1]), b_) for b_ in kinds["PublicKeyModLargeSafePrimeIsZero"])
+                and cfg.must_pass_edge(body, (zero[0], zero[2]), mod[0]))
     rep.check(good, "client-test", fn, "error-kinds", "zero => PublicKeyIsZero, then multiple of the modulus => PublicKeyModLargeSafePrimeIsZero", "error kinds are not (zero -> PublicKeyIsZero; then mod == 0 -> PublicKeyModLargeSafePrimeIsZero)", body.loc())
-    # the two predicates themselves
-    zse = ctx.deep.run("bigint::Integer::is_zero")
-    mse = ctx.deep.run("bigint::Integer::mod_large_safe_prime_is_zero")
-    good = False
-    if zse is not None and mse is not None:
-        z = strip(zse.ret)
-        m = strip(mse.ret)
-
-        def is_zero_const(t):
-            t = strip(t)
-            return t[0] == "field" and util.is_call(t[1]) is False or "from" in str(t) and "('int', 0" in str(t)
-
-        zok = util.is_call(z) and z[1].endswith("::eq") and strip(z[2][0]) == ("field", ("param", 1), 0) and is_zero_const(z[2][1])
-        mok = util.is_call(m) and m[1].endswith("::eq") and is_zero_const(m[2][1])
-        if mok:
-            lhs = strip(m[2][0])
-            mok = util.is_call(lhs) and "Rem" in lhs[1] and strip(lhs[2][0]) == ("field", ("param", 1), 0) and "from_bytes_le" in str(lhs[2][1]) and "('param', 2)" in str(lhs[2][1])
-        good = zok and mok
-    rep.check(good, "client-test", "bigint::Integer", "predicates", "is_zero = (value == 0); mod test = (value % int(announced prime) == 0)", "the big-integer predicates are not value == 0 / value % prime == 0")
